@@ -77,7 +77,7 @@ func (d *SnapDriver) Step(x *Exec, n *Node, i int) StepResult {
 	A := []util.Uint160{w.Alpha}
 	where := map[string]any{"count": m.n}
 	viol := func(class, msg string) StepResult {
-		return StepResult{V: Viol(class, msg, where), Outcome: "VIOLATION"}
+		return StepResult{V: Viol(class, msg, where), Outcome: "violation"}
 	}
 	cur := n
 	outcome := "HALT"
